@@ -6,11 +6,14 @@ from hypothesis import strategies as st
 from vk import gen
 from vk import models as M
 
+import os as _os
+
+ENUM_TOP = int(_os.environ.get("VERIF_ENUM_TOP", "6"))  # largest coordinate of the thorough enumeration
 ID = "C06"
 LEVEL = "exploration"
 RULE = (
     "(a) bounded-exhaustive: every pair (A, B) of multisets of <=2 intervals over coordinates 0..4 (quick; 66x66 pairs) "
-    "or <=2 x <=3 over 0..5 (thorough; 136x816 pairs), each in 4 variants (plain; gene column + a row on a second "
+    "or <=2 x <=3 over 0..6 (thorough; 253x2024 pairs), each in 4 variants (plain; gene column + a row on a second "
     "chromosome in A; in B; in both), plus every multiset of <=3 intervals over 0..6 for the unary operations with a "
     "grid of bp/avg/min/resize values; (b) Hypothesis: relation-biased tables (disjoint/abutting/overlapping/nested/"
     "duplicate) of up to 40 rows, coordinates to 1e6, extra columns, chromosomes present in one table only, arbitrary "
@@ -25,7 +28,7 @@ ASSUMPTIONS = [
     "tables are given in tabio.read order (natural chromosome order, start, end) with start < end, as every cnvkit caller provides",
     "chromosome sizes passed to resize_ranges are >= every end on that chromosome",
     "round(length/avg) with a fractional part within 1e-9 of .5 accepts either neighbouring bin count",
-    "the thorough enumeration covers the full 136x816 pair scope (coordinates 0..5; 0..6 would take over an hour) in the plain variant and a 1-in-8 stride of it in the three second-chromosome/gene variants",
+    "the thorough enumeration covers the full 253x2024 pair scope (about an hour on 16 cores; VERIF_ENUM_TOP=5 gives the 136x816 scope in minutes) in the plain variant and a 1-in-8 stride of it in the three second-chromosome/gene variants",
 ]
 
 CHR_A, CHR_B = "chr1", "chr2"
@@ -48,7 +51,7 @@ def enumerate_cases(tier):
         As = list(gen.multisets(ivs, 2))
         Bs = As
     else:
-        ivs = gen.intervals_upto(5)
+        ivs = gen.intervals_upto(ENUM_TOP)
         As = list(gen.multisets(ivs, 2))
         Bs = list(gen.multisets(ivs, 3))
     k = 0
